@@ -1272,6 +1272,30 @@ class Interp:
             return ec.value
         return PList(out)
 
+    def e_DictComp(self, e, env):
+        if len(e.generators) != 1:
+            raise Unsupported("nested dict comprehension", e)
+        g = e.generators[0]
+        it = self.eval(g.iter, env)
+        if isinstance(it, PList):
+            items = it.items
+        elif isinstance(it, tuple):
+            items = list(it)
+        elif isinstance(it, PDict):
+            items = it.okeys()
+        else:
+            raise Unsupported("dict comprehension over " + canon(it), e)
+        out = PDict()
+        for x in items:
+            env2 = dict(env)
+            self.assign(g.target, x, env2)
+            if all(self.truth(self.eval(c, env2), c) for c in g.ifs):
+                k = self.eval(e.key, env2)
+                dk = self.dkey(k, e)
+                out.d[dk] = self.eval(e.value, env2)
+                out.k.setdefault(dk, k)
+        return out
+
     # ---------------------------------------------------------------- calls
     def e_Call(self, e, env):
         fnode = e.func
@@ -1283,6 +1307,11 @@ class Interp:
         kwargs = {}
         for k in e.keywords:
             if k.arg is None:
+                kv = self.eval(k.value, env)
+                if isinstance(kv, PDict) and all(isinstance(x, str) for x in kv.d):
+                    for kk, vv in kv.d.items():
+                        kwargs[kk] = vv
+                    continue
                 raise Unsupported("**kwargs", e)
             kwargs[k.arg] = self.eval(k.value, env)
         dotted = _dotted(fnode)
